@@ -1,0 +1,29 @@
+//go:build verif
+
+package literals
+
+import (
+	"go/ast"
+	mathrand "math/rand"
+)
+
+// VerifKey describes one external key handed to an obfuscator.
+type VerifKey struct {
+	Name, Typ string
+	Value     uint64
+	Bits      int
+	Used      bool
+}
+
+// VerifObfuscate runs obfuscator number idx on a copy of data, drawing the external keys and everything
+// else from a generator seeded with seed, like obfuscateByteSlice does but without the proxy dispatcher.
+func VerifObfuscate(idx int, seed int64, data []byte) ([]VerifKey, *ast.BlockStmt) {
+	rnd := mathrand.New(mathrand.NewSource(seed))
+	extKeys := randExtKeys(rnd)
+	block := Obfuscators[idx].obfuscate(rnd, append([]byte(nil), data...), extKeys)
+	keys := make([]VerifKey, len(extKeys))
+	for i, k := range extKeys {
+		keys[i] = VerifKey{k.name, k.typ, k.value, k.bits, k.IsUsed()}
+	}
+	return keys, block
+}
